@@ -219,6 +219,42 @@ class StoreWorld:
             m.etag = etag
         if self.prop == "C06":
             self.audit_uids(listing)
+            self.audit_uid_cache(listing)
+
+    def audit_uid_cache(self, listing):
+        """Invariant at a hook: after the scan that precedes every duplicate check, the store's uid -> name
+        cache must equal the uid -> name map recomputed from the stored objects by the independent parser."""
+        st = self.st
+        if not hasattr(st, "_scan_uids") or not hasattr(st, "_uid_to_fname"):
+            self.res.count("uid_cache_not_observable")
+            return
+        try:
+            st._scan_uids()
+        except Exception as e:
+            self.viol("uid-cache/scan-raises/" + type(e).__name__, f"_scan_uids raised {e!r}")
+            return
+        truth = {}
+        for n, ct, etag in listing:
+            if not n.endswith(".ics"):
+                continue
+            try:
+                uid = icl.calendar_uid(icl.parse_calendar(b"".join(st.get_file(n, ct, etag).content)))
+            except Exception:
+                continue
+            if uid is not None:
+                truth.setdefault(uid, set()).add(n)
+        cache = {}
+        for k, v in st._uid_to_fname.items():
+            nm = v[0]
+            if str(nm).endswith(".ics"):
+                cache[str(k)] = nm
+        self.res.count("uid_cache_checks")
+        for uid, nm in cache.items():
+            if nm not in truth.get(uid, ()):
+                self.viol("uid-cache/stale-entry", f"after a scan the store's uid cache maps {uid!r} -> {nm!r}, but no such live object carries that UID (live holders: {sorted(truth.get(uid, []))!r})")
+        for uid, names in truth.items():
+            if uid not in cache:
+                self.viol("uid-cache/missing-entry", f"after a scan the store's uid cache has no entry for {uid!r} carried by {sorted(names)!r}")
 
     def audit_uids(self, listing):
         by = {}
